@@ -102,6 +102,23 @@ class Unit:
                     out.append(text)
                 i += 1
                 continue
+            if ln.startswith('//@structinit'):
+                # `new T()` / `T()` of a class without user-provided constructor: zero-initialisation, then the default
+                # member initialisers AS WRITTEN in the header (extracted on every run)
+                o = parse_kv(ln[13:])
+                src = X.read_repo(o['file'])
+                cppdefs = [d for d in o.get('cpp', '').split(',') if d] + list(defs)
+                inits = []
+                _, names, line = X.extract_struct(src, o['name'], cppdefs, inits)
+                if re.search(r'\b' + re.escape(o['name']) + r'\s*\(', X.strip_comments_keep_layout(src).split('struct ' + o['name'])[1].split('\n\t};')[0].replace('~' + o['name'], '')):
+                    raise X.ExtractError('%s: struct %s has a user-provided constructor' % (self.name, o['name']))
+                body = ''.join('  o->%s = %s;\n' % (f, v) for f, v in inits if v is not None and v != 'VF_EMPTY_INIT')
+                text = 'static void vf_init_%s(struct %s* o)\n{\n  __CPROVER_array_set((char*)o, 0);\n%s}' % (o['name'], o['name'], body)
+                info['functions'].append(dict(name='init ' + o['name'], file=o['file'], line=line,
+                                              sha=hashlib.sha1(text.encode()).hexdigest()[:12], rules={'R6.inits': len([1 for _, v in inits if v is not None])}))
+                out.append(text)
+                i += 1
+                continue
             if ln.startswith('//@struct'):
                 o = parse_kv(ln[9:])
                 src = X.read_repo(o['file'])
